@@ -18,7 +18,7 @@ end time-of-day is not before the start's:
                 `pre`) event of the simulation clock for the same range;
 * `C13_reject`, `C13_parseWeekday_*`  an unknown weekday is an error; `parseWeekday` accepts exactly MON..FRI.
 
-Dates before 1970 are out of scope for the month-based schedules (`0 ≤ dayOf start`).
+Month-based schedules carry `M0 ≤ dayOf start` (`M0` = 1600-01-01, where the model starts counting months): every instant pandas can represent (from 1677-09-21) satisfies it, so the hypothesis excludes no input of the code.
 -/
 
 namespace Qs.C13
@@ -106,20 +106,20 @@ theorem C13_daily (start end_ : Int) (pre : Bool) :
   have : dayOf (dayOf start * 86400) = dayOf start := by generalize dayOf start = a; unfold dayOf; omega
   rw [this]
 
-theorem eom_general (start end_ : Int) (pre : Bool) (h0 : 0 ≤ dayOf start) :
+theorem eom_general (start end_ : Int) (pre : Bool) (h0 : M0 ≤ dayOf start) :
     eomRebalances start end_ pre =
       ((daysFrom (dayOf start) (hiOf start end_ + 1 - dayOf start).toNat).filter isBMonthEnd).map (stamp pre) := by
   unfold eomRebalances
   rw [bmeRangeDays_eq_filter start end_ h0]
 
 /-- C13 (end of month): exactly the dates of the range that are the last Mon–Fri date of their month -/
-theorem C13_eom (start end_ : Int) (pre : Bool) (h0 : 0 ≤ dayOf start) (htod : todOf start ≤ todOf end_) :
+theorem C13_eom (start end_ : Int) (pre : Bool) (h0 : M0 ≤ dayOf start) (htod : todOf start ≤ todOf end_) :
     eomRebalances start end_ pre =
       ((daysFrom (dayOf start) (dayOf end_ + 1 - dayOf start).toNat).filter isBMonthEnd).map (stamp pre) := by
   rw [eom_general start end_ pre h0, hiOf_eq start end_ htod]
 
 /-- membership form of `C13_eom` on the dates -/
-theorem C13_eom_sound_complete (start end_ x : Int) (h0 : 0 ≤ dayOf start) (htod : todOf start ≤ todOf end_) :
+theorem C13_eom_sound_complete (start end_ x : Int) (h0 : M0 ≤ dayOf start) (htod : todOf start ≤ todOf end_) :
     x ∈ bmeRangeDays start end_ ↔ dayOf start ≤ x ∧ x ≤ dayOf end_ ∧ isBMonthEnd x = true := by
   rw [bmeRangeDays_eq_filter start end_ h0, hiOf_eq start end_ htod, mem_filter_daysFrom]
   constructor
@@ -127,13 +127,13 @@ theorem C13_eom_sound_complete (start end_ x : Int) (h0 : 0 ≤ dayOf start) (ht
   · rintro ⟨a, b, c⟩; exact ⟨a, by omega, c⟩
 
 /-- `isBMonthEnd d` ⇔ `d` is a business day whose next business day lies in another month -/
-theorem C13_eom_char (d : Int) (hd : 0 ≤ d) :
+theorem C13_eom_char (d : Int) (hd : M0 ≤ d) :
     isBMonthEnd d = true ↔ isBDay d = true ∧ (findMonth (nextBDay d)).1 ≠ (findMonth d).1 :=
   isBMonthEnd_char hd
 
 /-- `isBMonthEnd d` ⇔ `d` is a Monday–Friday date and every later date of its month is a weekend day.
 Months: `findMonth d = (k, monthStart k)` with `monthStart k ≤ d < monthStart (k+1)`. -/
-theorem C13_eom_last (d : Int) (hd : 0 ≤ d) :
+theorem C13_eom_last (d : Int) (hd : M0 ≤ d) :
     ∃ k, findMonth d = (k, monthStart k) ∧ monthStart k ≤ d ∧ d < monthStart (k + 1) ∧
       28 ≤ monthLen k ∧ monthLen k ≤ 31 ∧ monthStart (k + 1) = monthStart k + monthLen k ∧
       (isBMonthEnd d = true ↔
@@ -243,13 +243,13 @@ theorem C13_sorted_daily (start end_ : Int) (pre : Bool) : (dailyRebalances star
   exact map_stamp_pairwise pre _ (filter_daysFrom_pairwise _ _ _)
 
 /-- C13: the end-of-month schedule is strictly increasing -/
-theorem C13_sorted_eom (start end_ : Int) (pre : Bool) (h0 : 0 ≤ dayOf start) :
+theorem C13_sorted_eom (start end_ : Int) (pre : Bool) (h0 : M0 ≤ dayOf start) :
     (eomRebalances start end_ pre).Pairwise (· < ·) := by
   rw [eom_general start end_ pre h0]
   exact map_stamp_pairwise pre _ (filter_daysFrom_pairwise _ _ _)
 
 /-- C13: each range schedule is strictly increasing (buy-and-hold is a single instant) -/
-theorem C13_sorted (start end_ : Int) (s : String) (pre : Bool) (h0 : 0 ≤ dayOf start) :
+theorem C13_sorted (start end_ : Int) (s : String) (pre : Bool) (h0 : M0 ≤ dayOf start) :
     (∀ l, weeklyRebalances start end_ s pre = .ok l → l.Pairwise (· < ·)) ∧
     (dailyRebalances start end_ pre).Pairwise (· < ·) ∧
     (eomRebalances start end_ pre).Pairwise (· < ·) ∧
@@ -306,7 +306,7 @@ theorem C13_meets_daily (start end_ : Int) (pre spre spost : Bool)
 
 /-- C13 (end-of-month meets the clock) -/
 theorem C13_meets_eom (start end_ : Int) (pre spre spost : Bool)
-    (hle : start ≤ end_) (h0 : 0 ≤ dayOf start) (x : Int) (hx : x ∈ eomRebalances start end_ pre) :
+    (hle : start ≤ end_) (h0 : M0 ≤ dayOf start) (x : Int) (hx : x ∈ eomRebalances start end_ pre) :
     ∃ evs, simEvents start end_ spre spost = .ok evs ∧
       ∃ e ∈ evs, e.time = x ∧ e.kind = (if pre then EvKind.marketOpen else EvKind.marketClose) := by
   rw [eom_general start end_ pre h0] at hx
@@ -314,14 +314,14 @@ theorem C13_meets_eom (start end_ : Int) (pre spre spost : Bool)
   rw [mem_filter_daysFrom] at hd
   refine meets_core start end_ pre spre spost hle d ?_
   rw [bdayRange_eq, mem_filter_daysFrom]
-  have hd0 : 0 ≤ d := by omega
+  have hd0 : M0 ≤ d := by omega
   exact ⟨hd.1, hd.2.1, ((isBMonthEnd_char hd0).1 hd.2.2).1⟩
 
 /-- C13 in the stated form (`pre = false`, clock without pre/post events): every weekly, daily and
 end-of-month instant is the time of a market-close event of the clock for the same range -/
 theorem C13_meets (start end_ : Int) (s : String) (hle : start ≤ end_) (htod : todOf start ≤ todOf end_) (x : Int) :
     ((∃ l, weeklyRebalances start end_ s false = .ok l ∧ x ∈ l) ∨ x ∈ dailyRebalances start end_ false ∨
-      (0 ≤ dayOf start ∧ x ∈ eomRebalances start end_ false)) →
+      (M0 ≤ dayOf start ∧ x ∈ eomRebalances start end_ false)) →
     ∃ evs, simEvents start end_ false false = .ok evs ∧
       ∃ e ∈ evs, e.time = x ∧ e.kind = EvKind.marketClose := by
   rintro (⟨l, hl, hx⟩ | hx | ⟨h0, hx⟩)
@@ -342,7 +342,7 @@ Wednesdays: 02-26, 03-04, 03-11, 03-18, 03-25 (days 18318 + 7 i). -/
 example :
     let start : Int := 18316 * 86400 + 32400
     let end_ : Int := 18352 * 86400 + 61200
-    start ≤ end_ ∧ todOf start ≤ todOf end_ ∧ 0 ≤ dayOf start ∧
+    start ≤ end_ ∧ todOf start ≤ todOf end_ ∧ M0 ≤ dayOf start ∧
     ((dateRangeDays (fun d => decide (weekday d = 2)) (fun d => d + ((2 - weekday d - 1) % 7 + 1)) start end_).map
         (stamp false)) =
       [18318 * 86400 + 75600, 18325 * 86400 + 75600, 18332 * 86400 + 75600, 18339 * 86400 + 75600,
@@ -375,7 +375,7 @@ example : buyAndHold (18321 * 86400 + 36000) = [18323 * 86400 + 36000] ∧
   refine ⟨by rfl, by rfl⟩
 
 /-- `C13_eom_char` both ways on concrete days: 2020-02-28 (Fri) is a month end, 2020-02-27 (Thu) is not -/
-example : isBMonthEnd 18320 = true ∧ (findMonth (nextBDay 18320)).1 = 602 ∧ (findMonth 18320).1 = 601 ∧
+example : isBMonthEnd 18320 = true ∧ (findMonth (nextBDay 18320)).1 = 5042 ∧ (findMonth 18320).1 = 5041 ∧
     isBMonthEnd 18319 = false ∧ (findMonth (nextBDay 18319)).1 = (findMonth 18319).1 := by
   refine ⟨by decide +kernel, by decide +kernel, by decide +kernel, by decide +kernel, by decide +kernel⟩
 
